@@ -9,9 +9,13 @@ PROP = "C07"
 STREAM_MODULES = ["LunaVerif.Lemmas.C07Stream", "LunaVerif.Lemmas.C07StreamCycles", "LunaVerif.Lemmas.C07StreamSeq",
                   "LunaVerif.Lemmas.C07StreamMain", "LunaVerif.Lemmas.C07StreamRun", "LunaVerif.Lemmas.C07StreamExamples",
                   "LunaVerif.Lemmas.C07StreamContracts", "LunaVerif.Lemmas.C07Closed",
-                  "LunaVerif.Lemmas.C07Closed2", "LunaVerif.Lemmas.C07Legal"]
+                  "LunaVerif.Lemmas.C07Closed2", "LunaVerif.Lemmas.C07Legal",
+                  # every max_packet_size (event-level model with start_position += max_packet_size), the GET_DESCRIPTOR data
+                  # stage, the closed loops and the LegalHost chain for 8 / 16 / 32 / 64; additional request handlers
+                  "LunaVerif.Lemmas.C07Mps", "LunaVerif.Lemmas.C07MpsExamples", "LunaVerif.Lemmas.C07MpsRead",
+                  "LunaVerif.Lemmas.C07MpsClosed", "LunaVerif.Lemmas.C07MpsLegal", "LunaVerif.Lemmas.C07Extra"]
 # the C07 stage theorems stated of the cycle-level closed loop (only C07 audits this one)
-TRANSFER_MODULES = ["LunaVerif.Lemmas.C07Transfer"]
+TRANSFER_MODULES = ["LunaVerif.Lemmas.C07Transfer", "LunaVerif.Lemmas.C07MpsTransfer"]
 LEAN_MODULES = ["LunaVerif.Props.C07"] + dev_ctl.CYC_MODULES + STREAM_MODULES + TRANSFER_MODULES
 DRIVER = dev_ctl.DRIVER
 REQUIRED_THEOREMS = ["stage_follows_setup", "data_in_only_after_in_setup", "in_token_answered_only_in_data_or_status_in", "out_data_answered_only_in_status_out", "setup_always_restarts", "other_endpoint_tokens_are_stutter", "other_endpoint_transactions_are_stutter",
@@ -23,11 +27,23 @@ REQUIRED_THEOREMS = ["stage_follows_setup", "data_in_only_after_in_setup", "in_t
                      "wires_indep", "sysStep_ignores_t", "cl_send", "closed_event", "closed_loop_refines_event_run",
                      "cl2_desc", "closed_event2", "closed2_refines_event_run",
                      "readInv_legal", "legal_read_in_order", "closed2_refines_legal_run",
-                     "closed2_data_only_after_in_setup", "closed2_in_answered_only_in_data_or_status_in"]
+                     "closed2_data_only_after_in_setup", "closed2_in_answered_only_in_data_or_status_in",
+                     "coreM_eq_core", "cycle_refines_event_streams_mps", "cycle_refines_event_all_mps",
+                     "cycle_refines_event_streams_run_mps", "cycle_refines_event_streams_run_of_mps",
+                     "get_descriptor_data_stage_mps", "cyc_get_descriptor_data_stage_mps",
+                     "closed_loop_refines_event_run_mps", "closed2_refines_event_run_mps",
+                     "readInv_legal_mps", "legal_read_in_order_mps", "closed2_refines_legal_run_mps",
+                     "closed2_data_only_after_in_setup_mps", "closed2_in_answered_only_in_data_or_status_in_mps",
+                     "muxN_spec", "stepX_state", "stepX_unclaimed", "stepX_extra_owner", "stepX_conflict",
+                     "extra_handlers_invisible", "cycle_refines_event_streams_run_extra"]
 RULE_SYS = ("; next to it the two streamer models of the closed loops (Model/Usb2/ControlCycSys.lean: StreamGen.serStep wired to "
             "the handler model's transmitter wires; Desc.Block.step over Rom.layout of the case's descriptor table wired to "
             "value / length / start_position / start / ready, in the cases with GetDescriptorHandlerBlock) are compared with "
-            "the real transmitter's / descriptor handler's outputs in every cycle (41 values per cycle)")
+            "the real transmitter's / descriptor handler's outputs in every cycle (41 values per cycle); max packet sizes 8 / 16 / "
+            "32 / 64; in half of the cases 1-2 additional request handlers (devharness zlpreg: vendor / class requests, the same "
+            "request twice, a standard request) sit behind the real request multiplexer -- their interface outputs are sampled as "
+            "inputs of the model (Model/Usb2/ControlCycX.lean stepX: abstract handlers, the multiplexer is the model's), the "
+            "cycle-level monitor checks the multiplexer rule on the real trace (only claimant drives, nobody / several -> STALL)")
 RULE_STATUS = ("; status stage IN: the host repeats the status IN (up to three times) when its ACK of the status ZLP was lost / "
                "corrupted / replaced by a NAK; the monitor demands an answer (ZLP / NAK / STALL, silence = "
                "c07-repeated-status-in-not-answered) to EVERY status-stage IN of a SET_ADDRESS / SET_CONFIGURATION / "
@@ -37,27 +53,41 @@ RULE_STATUS = ("; status stage IN: the host repeats the status IN (up to three t
 RULE = dev_ctl.RULE + RULE_STATUS + dev_ctl.CYC_RULE + RULE_SYS
 ASSUMPTIONS = dev_ctl.ASSUMPTIONS
 PARTIAL_STREAMS = (
-    "the property theorems are about the event-level model, tied to the whole USBDevice by event-by-event co-simulation; the "
-    "cycle-level model of USBControlEndpoint + request multiplexer + StandardRequestHandler (Model/Usb2/ControlCyc.lean, "
-    "co-simulated cycle by cycle against the real standalone control endpoint) is proved to simulate the event-level model "
-    "along EVERY event history (cycle_refines_event_streams_run: all handler states incl. the GET_STATUS / GET_CONFIGURATION "
-    "/ GET_DESCRIPTOR data stages with their payload bytes, data PIDs and the start_position advance on the gated ACK, and "
-    "bus resets) for max_packet_size = 64 and no additional request handlers; in that theorem the StreamSerializer "
+    "the property theorems are about the event-level model, tied to the whole USBDevice by event-by-event co-simulation (always "
+    "with max_packet_size = 64); the cycle-level model of USBControlEndpoint + request multiplexer + StandardRequestHandler "
+    "(Model/Usb2/ControlCyc.lean, co-simulated cycle by cycle against the real standalone control endpoint with max packet "
+    "sizes 8 / 16 / 32 / 64) is proved to simulate the event-level model along EVERY event history for EVERY max_packet_size "
+    "(cycle_refines_event_streams_run_mps, no hypothesis on the size: all handler states incl. the GET_STATUS / "
+    "GET_CONFIGURATION / GET_DESCRIPTOR data stages with their payload bytes, data PIDs and the start_position advance by "
+    "max_packet_size on the gated ACK, and bus resets); the event-level model of that theorem is coreM / stepM "
+    "(Lemmas/C07Mps.lean) = Device.core / Device.step with start_position += c.maxPacket, which IS Device.core for 64 "
+    "(coreM_eq_core; Device.core itself advances by the literal 64, so for other sizes the event-level side is tied to the "
+    "gateware only through this refinement and the cycle-level co-simulation, there is no event-level co-simulation of the whole "
+    "USBDevice at 8 / 16 / 32); get_descriptor_data_stage_mps / cyc_get_descriptor_data_stage_mps: for max_packet_size in "
+    "{8, 16, 32, 64} the data stage read by IN + ACK pairs is exactly C09's Desc.dataStage (mps-sized chunks of the first "
+    "wLength bytes, zero-length packet iff the total is a multiple of mps and smaller than wLength, DATA1 / DATA0 alternating), "
+    "at event level and on the cycle-level bus; of the property theorems of Props/C07.lean the two data-stage / IN-token rules "
+    "are re-stated for coreM (data_in_only_after_in_setup_mps, in_token_answered_only_in_data_or_status_in_mps) and transferred "
+    "to the cycle-level closed loop for the four sizes, the others (and C08 / C10) are stated for the 64 model only (they do "
+    "not read start_position); in the refinement theorem the StreamSerializer "
     "'transmitter' and the descriptor handler are INPUTS of the cycle-level model, constrained in the expansion of an "
     "event by their stream contract (silent unless started; after `start` silent for lat >= 1 cycles, then the answer byte by "
     "byte, each held until tx.ready, `first`/`last` flags, ZLP = valid & last & ~first, missing descriptor = one stall "
-    "cycle: Desc.respTrace); BOTH contracts are discharged by formal closed loops: closed_loop_refines_event_run proves the "
+    "cycle: Desc.respTrace); BOTH contracts are discharged by formal closed loops, for 64 and (…_mps) for every legal size: "
+    "closed_loop_refines_event_run(_mps) proves the "
     "same refinement of sysStep = CtrlCyc.step composed with the serializer model StreamGen.serStep "
     "(Model/Usb2/ControlCycSys.lean, co-simulated in situ against the real transmitter in every cycle) with no assumption "
-    "on the transmitter (any descriptor handler satisfying the contract), and closed2_refines_event_run proves it of "
+    "on the transmitter (any descriptor handler satisfying the contract), and closed2_refines_event_run(_mps, sizes 8 / 16 / 32 "
+    "/ 64) proves it of "
     "sys2Step = CtrlCyc.step + serializer model + the C09 model of GetDescriptorHandlerBlock (Desc.Block.step over "
     "Rom.layout of the event-level descriptor table) with NO stream contract left: the handler model produces the window's "
     "beats itself (cl2_desc, from C09 block_packet_exact / block_returns_idle via block_handler_contract and "
     "descriptorPacket_spec: the event-level descriptorPacket is C09's specResponse at in-order offsets), the theorem "
     "provides the descriptor-window latencies (SameButLat); remaining hypotheses there: the block handler's constructor "
     "preconditions (wellFormed collection, position register >= 2 bits), well-sized in-order descriptor reads (DescReqOk: "
-    "start_position <= min(wLength, |descriptor|)) -- which closed2_refines_legal_run derives from LegalHost "
-    "(legal_read_in_order: invariant ReadInv of legal histories, the host stops after a short packet) --, windows long "
+    "start_position <= min(wLength, |descriptor|)) -- which closed2_refines_legal_run(_mps) derives from LegalHost / LegalHostM "
+    "(legal_read_in_order(_mps): invariant ReadInv of legal histories, the host stops after a packet shorter than "
+    "max_packet_size) --, windows long "
     "enough (WinFrom / Fits2From = C09's Complete 4); both streamer models inside the loops are co-simulated IN SITU (inside the real handler, on the "
     "model's own wires) in every cycle of the cycle-level co-simulation; for the distributed "
     "descriptor handler only the contract link is proved (dist_handler_contract, lat <= 2: its STALL in the start cycle is "
@@ -65,8 +95,18 @@ PARTIAL_STREAMS = (
     "link lemma is stated (C09 mux_requests_exact has the same form); the host-side contract is that a started "
     "stream is consumed within the event's window (StreamFits) and that descriptor reads are in order; the expansion also "
     "encodes the contracts of the token detector, setup decoder and the device core's receiver strobes (proved at C04-C06, "
-    "not composed formally here); not covered: configurations with additional request handlers (c.extra != []), "
-    "max_packet_size != 64 (the event-level model advances start_position by 64), the rx stream pass-through of the "
+    "not composed formally here); additional request handlers: the cycle-level model stepX (Model/Usb2/ControlCycX.lean, "
+    "co-simulated against the real control endpoint with 0-2 additional handlers) has ANY number of abstract handlers behind "
+    "the multiplexer (their interface outputs are inputs; handshakes_out.nak of an additional handler is not modelled); "
+    "muxN_spec proves the multiplexer's rule (the only claimant drives; nobody or several claimants -> the stall-only "
+    "fallback), stepX_state that the control endpoint's and the standard handler's registers never depend on them, "
+    "stepX_extra_owner / stepX_conflict the two claimed cases cycle by cycle, and extra_handlers_invisible / "
+    "cycle_refines_event_streams_run_extra that along every history none of whose latched SETUP packets they claim (claim = a "
+    "decidable predicate of the setup packet; everything else they drive is arbitrary) the run with them IS the run without "
+    "them and refines the event-level model of the device with the standard handler only; NOT covered: a history-level "
+    "refinement for the requests an additional handler DOES claim (the event-level model's concrete zlpreg handlers, c.extra "
+    "!= [], are tied to the gateware by the event-level co-simulation and to the cycle level only by those one-cycle lemmas: "
+    "an abstract handler's answers would have to become inputs of the event-level model), the rx stream pass-through of the "
     "DATA_OUT stage")
 PARTIAL = PARTIAL_STREAMS
 
